@@ -51,6 +51,7 @@ var idSignature = map[string]string{
 	"N18": "dimension:unit-with-non-letter-mangled",
 	"N19": "fusion:plus-sign-removed-inside-function",
 	"N20": "fusion:hex-escape-swallows-separator",
+	"N21": "panic:background-third-box-keyword",
 }
 
 func (f *Finding) Signature() string {
